@@ -267,6 +267,25 @@ def impl_run(impl, hists, threads=1, timeout=1800):
     return result, crashed
 
 
+def impl_stress(impl, hists, threads=16, reps=10, timeout=1800):
+    """Every thread runs every history `reps` times concurrently; returns (dict hid -> (got lines, expected lines)) for the
+    histories whose transcript deviated from the single-threaded pass at least once, and the summary line."""
+    p = _write_tmp(script_text(hists))
+    try:
+        pr = subprocess.run([impl.path, "stress", p, str(threads), str(reps)], stdout=subprocess.PIPE,
+                            stderr=subprocess.PIPE, timeout=timeout, env=ENV)
+    finally:
+        os.unlink(p)
+    tr = split_transcript(pr.stdout.decode("utf-8", "replace"))
+    summary = " ".join(tr.pop(999999999, ["STRESS died rc=%d" % pr.returncode]))
+    dev = {}
+    for hid, lines in tr.items():
+        if "EXPECTED" in lines:
+            k = lines.index("EXPECTED")
+            dev[hid] = (lines[1:k], lines[k + 1:])
+    return dev, summary
+
+
 def model_run(hists, profile, cfg, addr=0, timeout=3000):
     """Run histories on the extracted model, sharded over the cores. Returns dict hid->lines."""
     drv = os.path.join(OCAML, "driver")
